@@ -113,6 +113,11 @@ theorem entry_index_eq (e : LookupEnc) (k : String) (hne : e.lookup.evicting = t
 /-- a method result together with the attributes afterwards, as the reader model reports it -/
 def swap (r : Except PyErr α × σ) : σ × Except PyErr α := (r.2, r.1)
 
+theorem swap_eq {r : Except PyErr α × σ} {a : σ} {b : Except PyErr α} (h : swap r = (a, b)) : r = (b, a) := by
+  obtain ⟨x, y⟩ := r
+  simp only [swap, Prod.mk.injEq] at h
+  rw [h.1, h.2]
+
 theorem term_index_app (e : LookupEnc) (v : String) :
     match e.termIndex v with
     | .ok (e', i) => Gen.LookupEncoder.encode_term_index v e = (.ok i, e')
